@@ -113,7 +113,10 @@ def datadesc(datafield: str) -> str:
     :rtype: str
     """
 
-    (_, _, _, desc) = RTCM_DATA_FIELDS[datafield[0:5]]
+    key = datafield
+    while key not in RTCM_DATA_FIELDS and "_" in key:
+        key = key.rsplit("_", 1)[0]  # strip (nested) group index suffix
+    (_, _, _, desc) = RTCM_DATA_FIELDS[key]
     return desc
 
 
